@@ -38,6 +38,9 @@ def check(repo: Repo, rep, tier):
     repr_through_mock(repo, rep)
     fmt_shell(repo, rep)
     codegen_pure(repo, rep)
+    from .C01 import repr_restore
+
+    repr_restore(repo, rep)
     from .C15 import fmt_degrade
 
     fmt_degrade(repo, rep)
